@@ -61,6 +61,11 @@ def copiesOf (f : ElabSt → Option (RExpr × ElabSt)) : Nat → ElabSt → Opti
     let (rs, st2) ← copiesOf f n st1
     pure (r :: rs, st2)
 
+/-- `forgetCaptures` of `generateLoop` (fix 60824b3): before each copy of a loop body is resolved, the
+captures that were not in scope when the loop was entered are dropped -/
+def forgetVars (outer : List (String × Option Nat)) (s : ElabSt) : ElabSt :=
+  { s with vars := s.vars.filter (fun kv => kv.2.isSome || (lookupVar outer kv.1).isSome) }
+
 /-- name resolution and unrolling, given how the body of a global pattern is resolved.
 `none` = the generator rejects the program (undefined name, name clash) or the program uses a named
 loop (outside this fragment). -/
@@ -87,9 +92,9 @@ def resolveWith (inlineG : GEnv → Expr → ElabSt → Option (RExpr × ElabSt)
       | none => none
   | .loop mn mx fewest name body, st =>
     if name != "" then none else do
-      let (pre, st1) ← copiesOf (resolveWith inlineG G body) mn st
+      let (pre, st1) ← copiesOf (fun s => resolveWith inlineG G body (forgetVars st.vars s)) mn st
       if (mn : Int) == mx then pure (seqOf pre, st1) else
-      let (rb, st2) ← resolveWith inlineG G body st1
+      let (rb, st2) ← resolveWith inlineG G body (forgetVars st.vars st1)
       pure (.seq (seqOf pre) (.star (if mx > 0 then mx - mn else mx) fewest rb), st2)
   | .branch l r, st => do
     let (rl, st1) ← resolveWith inlineG G l st
